@@ -144,8 +144,40 @@ const (
 	StrASCII
 )
 
+var specialOffsets = []int{0, 1, 2, 3, 5, 6, 7, 8, 13, 14, 15, 16, 17, 29, 30, 31, 32, 33, 54, 55, 56, 57, 58, 59, 60, 61, 62, 63, 64, 65, 66,
+	125, 126, 127, 128, 129, 130, 248, 249, 250, 251, 252, 253, 254, 255, 256, 257, 258, 509, 510, 511, 512, 513, 514,
+	1021, 1022, 1023, 1024, 1025, 1026, 4093, 4094, 4095, 4096, 4097, 4098}
+
+// genSpecialAtOffset builds N plain bytes, one character that needs special
+// treatment somewhere (escape, multi-byte rune, U+2028...), and a short tail:
+// buffer-edge conditions in encoders and parsers depend on the exact offset.
+func genSpecialAtOffset(c *simkit.Choices, maxLen int) string {
+	n := specialOffsets[c.N(len(specialOffsets))]
+	if n+8 > maxLen {
+		n = c.N(maxLen + 1)
+	}
+	var sb strings.Builder
+	sb.WriteString(strings.Repeat(string(rune('a'+c.N(26))), n))
+	if c.Bool() {
+		sb.WriteString(asciiSpecial[c.N(len(asciiSpecial))])
+	} else {
+		sb.WriteString(runePool[c.N(len(runePool))])
+	}
+	for i, k := 0, c.N(4); i < k; i++ {
+		sb.WriteByte(byte('a' + c.N(26)))
+	}
+	return sb.String()
+}
+
 // GenText draws a valid UTF-8 string; length is in bytes (approximately).
 func GenText(c *simkit.Choices, maxLen int) string {
+	if maxLen >= 24 && c.N(16) == 0 {
+		max := maxLen
+		if max < 300 && c.N(3) == 0 {
+			max = 300 // the 250-258 edge also in the quick tier, now and then
+		}
+		return genSpecialAtOffset(c, max)
+	}
 	var n int
 	switch c.N(8) {
 	case 0, 1, 2:
